@@ -336,16 +336,24 @@ CHECKS = {
         ],
     },
     "C20": {
-        "engines": _c20,
+        "bins": True,
+        "engines": lambda tier: _c20(tier) + [{"engine": "e3cfg", "shards": 1, "timeout_s": 3000, "args": {"cases": 600 if tier == "thorough" else 70}}],
         "level": "exploration",
         "exhaustive": "every option x (in file?, on command line?) with the other options random; all networks (known, unknown, main/test) x explicit/implicit "
                       "port x all 8 credential combinations x all 8 file/command-line placements; plus random combinations (not exhaustive)",
         "rule": "case = (teos.toml contents, command line) run through the real from_file + Opt::from_iter_safe (structopt) + patch_with_options + verify; "
-                "oracle = documented precedence and refusal rule restated independently. distinct = distinct (file, command line) pairs.",
+                "oracle = documented precedence and refusal rule restated independently. distinct = distinct (file, command line) pairs. Second engine (e3cfg): what the "
+                "teosd binary does with a file + command line. Every observable setting has three distinguishable values (documented default, file, command line: binds "
+                "127.0.0.1/.2/.3, default / two free ports, network names, credentials differing per source, two cookie files) and the fake bitcoind listens on every "
+                "candidate (address, port); observed: exit status 1 + message + zero bitcoind requests for a refusal; otherwise the one address where the HTTP API answers, the "
+                "one where the private API listens, where bitcoind requests arrive and with which Authorization header, the network directory of the database, the slots / "
+                "duration granted by a registration, and (every third case) whether a restart with overwrite_key in the file / --overwritekey replaces the tower key. The "
+                "first 40 cases sweep each of 10 options through none / file / command line / both.",
         "assumptions": [
             "configuration files are well-formed TOML with correctly typed values; command lines are ones the parser accepts",
             "btc_rpc_port = 0 is read as 'not set explicitly'",
             "the network names 'main' and 'test' (accepted by the code, not in the documented list) carry no expectation either way",
+            "e3cfg needs the documented default ports (9814 8814 8332 18332 18443 38332 50051) free on the machine, else it reports inconclusive; force_update, the tor options and the debug flags are not observed at the binary level",
         ],
     },
 }
